@@ -65,9 +65,9 @@ type snap struct {
 func (s snap) coq() string {
 	t := "None"
 	if s.tot >= 0 {
-		t = fmt.Sprintf("Some %d", s.tot)
+		t = fmt.Sprintf("(Some %d)", s.tot)
 	}
-	return fmt.Sprintf("{| sfwd := %s; srev := %s; stot := %s |}", plist(s.fwd), plist(s.rev), t)
+	return fmt.Sprintf("Sn %s %s %s", plist(s.fwd), plist(s.rev), t)
 }
 
 func obs(ret string, snaps []snap) string {
@@ -75,7 +75,7 @@ func obs(ret string, snaps []snap) string {
 	for i, s := range snaps {
 		it[i] = s.coq()
 	}
-	return fmt.Sprintf("{| o_ret := %s; o_snaps := %s |}", ret, vh.List(it))
+	return fmt.Sprintf("Ob (%s) %s", ret, vh.List(it))
 }
 
 func fp(snaps []snap, extra string) string {
@@ -548,6 +548,23 @@ func runSess(c Case) result {
 
 // ------------------------------------------------------------------ circuit-id keys
 
+// a byte string as (B len [w1; w2; ...]) with big-endian 6-byte words, zero padded
+func bnum(b []byte) string {
+	p := append([]byte(nil), b...)
+	for len(p)%6 != 0 {
+		p = append(p, 0)
+	}
+	var ws []string
+	for i := 0; i < len(p); i += 6 {
+		var w uint64
+		for _, x := range p[i : i+6] {
+			w = w<<8 | uint64(x)
+		}
+		ws = append(ws, fmt.Sprintf("%d", w))
+	}
+	return fmt.Sprintf("(B %d %s)", len(b), vh.List(ws))
+}
+
 func runCKey(c Case) result {
 	var tr []string
 	tags := map[string]bool{}
@@ -555,9 +572,9 @@ func runCKey(c Case) result {
 		switch o.K {
 		case "key":
 			k := ebpf.MakeCircuitIDKey(o.B)
-			tr = append(tr, vh.Pair("CKey "+vh.Bytes(o.B), "CBytes "+vh.Bytes(k[:])))
+			tr = append(tr, vh.Pair("CKey "+bnum(o.B), "CBytes "+bnum(k[:])))
 		case "hash":
-			tr = append(tr, vh.Pair("CHash "+vh.Bytes(o.B), fmt.Sprintf("CNum %d", ebpf.HashCircuitID(o.B))))
+			tr = append(tr, vh.Pair("CHash "+bnum(o.B), fmt.Sprintf("CNum %d", ebpf.HashCircuitID(o.B))))
 		default:
 			panic("ckey op " + o.K)
 		}
@@ -1069,23 +1086,18 @@ func run(c Case) result {
 	panic("unknown component " + c.Comp)
 }
 
-var runFn = map[string]string{"vlan": "run_vlan", "qinq": "run_qinq", "sess": "run_sess", "ckey": "run_ckey", "idx": "run_idx"}
-var caseTy = map[string]string{"vlan": "vcase", "qinq": "qcase", "sess": "scase", "ckey": "ccase", "idx": "icase"}
+var ctor = map[string]string{"vlan": "UV", "qinq": "UQ", "sess": "US", "ckey": "UC", "idx": "UI"}
 
-func header(comp string) string {
-	return `From Coq Require Import NArith List. Import ListNotations.
+const header = `From Coq Require Import NArith List. Import ListNotations.
 From Verif Require Import Base.Word Model.Keys Model.Indexes Model.KeysSpec Model.KeysCheck.
 Local Open Scope N_scope.
-Definition cases : list ` + caseTy[comp] + ` := [
+Definition cases : list ucase := [
 `
-}
-func footer(comp string) string {
-	return `
+const footer = `
 ].
-Definition R := Eval vm_compute in ` + runFn[comp] + ` cases.
+Definition R := Eval vm_compute in run_cases cases.
 Print R.
 `
-}
 
 type stream struct {
 	name, comp string
@@ -1093,7 +1105,9 @@ type stream struct {
 	extra      map[string]interface{}
 }
 
-func toCase(c Case, r result) vh.Case { return vh.Case{Coq: r.coq, Desc: c, Tags: r.tags} }
+func toCase(c Case, r result) vh.Case {
+	return vh.Case{Coq: ctor[c.Comp] + " (" + r.coq + ")", Desc: c, Tags: r.tags}
+}
 
 // explore enumerates operation sequences over [alphabet] breadth-first up to [depth], expanding
 // every distinct final state (full state fingerprint) once: one case per edge of the state graph.
@@ -1142,25 +1156,23 @@ func main() {
 		if err := vh.LoadReplay(cfg.Replay, &c); err != nil {
 			panic(err)
 		}
-		vh.Emit(cfg, "replay_"+c.Comp, header(c.Comp), footer(c.Comp), []vh.Case{toCase(c, run(c))}, nil)
+		vh.Emit(cfg, "replay", header, footer, []vh.Case{toCase(c, run(c))}, nil)
 		return
 	}
-	// corpus first, one stream per component
-	byComp := map[string][]vh.Case{}
+	// corpus first
+	var corpus []vh.Case
 	for _, f := range vh.CorpusFiles(cfg) {
 		var c Case
 		if err := vh.LoadReplay(f, &c); err != nil {
 			panic(err)
 		}
-		byComp[c.Comp] = append(byComp[c.Comp], toCase(c, run(c)))
+		corpus = append(corpus, toCase(c, run(c)))
 	}
-	for _, comp := range []string{"vlan", "qinq", "sess", "ckey", "idx"} {
-		if len(byComp[comp]) > 0 {
-			vh.Emit(cfg, "corpus_"+comp, header(comp), footer(comp), byComp[comp], nil)
-		}
+	if len(corpus) > 0 {
+		vh.Emit(cfg, "corpus", header, footer, corpus, nil)
 	}
 	r := vh.NewRng(cfg.Seed)
 	for _, s := range genStreams(r, cfg.Thorough()) {
-		vh.Emit(cfg, s.name, header(s.comp), footer(s.comp), s.cases, s.extra)
+		vh.Emit(cfg, s.name, header, footer, s.cases, s.extra)
 	}
 }
